@@ -240,7 +240,7 @@ def eval_case(case):
         res["skip"] = "not-a-C13-chain"
         return res
     from octave_mcp.core import constraints as C
-    if len([c for c in chain.constraints if not isinstance(c, (C.RequiredConstraint, C.OptionalConstraint))]) != 1:
+    if len([c for c in chain.constraints if not isinstance(c, (C.RequiredConstraint, C.OptionalConstraint))]) != 1 and not case.get("multi"):
         res["skip"] = "more-than-one-specific-member"
         return res
     if any(isinstance(c, C.RequiredConstraint) for c in chain.constraints) and \
@@ -331,6 +331,10 @@ def eval_case(case):
 
 
 # --------------------------------------------------------------------------------------------------
+PAIRS = [("TYPE[NUMBER]", "ENUM[1,2,3]"), ("ENUM[ON,OFF]", "CONST[ON]"), ("TYPE[BOOLEAN]", "CONST[true]"), ("TYPE[STRING]", "ENUM[A,B]"),
+         ("TYPE[STRING]", "CONST[X]"), ("TYPE[NUMBER]", "CONST[42]"), ("ENUM[1,2,3]", "CONST[2]"), ("TYPE[STRING]", "ENUM[DRAFT,DRAFT_REVIEW]")]
+
+
 def gen_cases(ctx):
     wide = ctx.thorough or ctx.widen > 1
     cases = []
@@ -345,6 +349,12 @@ def gen_cases(ctx):
         if "(" in sp:
             continue
         cases.append({"kind": "doc", "field": "F", "chain": sp if k % 2 else "REQ∧" + sp, "wide": wide})
+    # two value-shaping members in one chain, general-to-specific and specific-to-general: the rule must come from the
+    # most specific one whatever the order (satisfiable pairs only, so every derived text must pass the whole chain)
+    for gen_, spec_ in PAIRS:
+        for chain in (f"{gen_}∧{spec_}", f"{spec_}∧{gen_}", f"REQ∧{gen_}∧{spec_}", f"{gen_}∧OPT∧{spec_}"):
+            cases.append({"kind": "api", "field": "F", "chain": chain, "wide": wide, "multi": True})
+        cases.append({"kind": "doc", "field": "F", "chain": f"{gen_}∧{spec_}", "wide": wide, "multi": True})
     # seeded: random ENUM sets / CONST atoms with random wrapper and field name
     rng = ctx.rng
     for _ in range(ctx.budget(150, 1500)):
